@@ -65,6 +65,9 @@ type timestampOracle struct {
 	tsoMux *tsoObject
 	// last timestamp window stored in etcd
 	lastSavedTime atomic.Value // stored as time.Time
+	// saveMu serializes "compare with lastSavedTime, then save the time window": the periodic update saves
+	// without holding tsoMux and must not overwrite the larger window a concurrent reset has just saved.
+	saveMu sync.Mutex
 	suffix        int
 	dcLocation    string
 }
@@ -273,13 +276,16 @@ func (t *timestampOracle) resetUserTimestamp(leadership *election.Leadership, ts
 		return errs.ErrResetUserTimestamp.FastGenByArgs("the specified ts is too larger than now")
 	}
 	// save into etcd only if nextPhysical is close to lastSavedTime
+	t.saveMu.Lock()
 	if typeutil.SubRealTimeByWallClock(t.lastSavedTime.Load().(time.Time), nextPhysical) <= UpdateTimestampGuard {
 		save := nextPhysical.Add(t.saveInterval)
 		if err := t.saveTimestamp(leadership, save); err != nil {
+			t.saveMu.Unlock()
 			tsoCounter.WithLabelValues("err_save_reset_ts", t.dcLocation).Inc()
 			return err
 		}
 	}
+	t.saveMu.Unlock()
 	// save into memory only if nextPhysical or nextLogical is greater.
 	t.tsoMux.physical = nextPhysical
 	t.tsoMux.logical = int64(nextLogical)
@@ -341,13 +347,16 @@ func (t *timestampOracle) UpdateTimestamp(leadership *election.Leadership) error
 
 	// It is not safe to increase the physical time to `next`.
 	// The time window needs to be updated and saved to etcd.
+	t.saveMu.Lock()
 	if typeutil.SubRealTimeByWallClock(t.lastSavedTime.Load().(time.Time), next) <= UpdateTimestampGuard {
 		save := next.Add(t.saveInterval)
 		if err := t.saveTimestamp(leadership, save); err != nil {
+			t.saveMu.Unlock()
 			tsoCounter.WithLabelValues("err_save_update_ts", t.dcLocation).Inc()
 			return err
 		}
 	}
+	t.saveMu.Unlock()
 	// save into memory
 	t.setTSOPhysical(next, false)
 
